@@ -2,30 +2,26 @@ package c14
 
 import (
 	"context"
-	"database/sql"
 	"fmt"
 	"strings"
 	"time"
 
-	"github.com/zeromicro/go-zero/core/stores/sqlx"
-
 	"verifsim/simrt"
 )
 
-// Pool mode: 2-3 client tasks, each running ONE Transact/TransactCtx on the same
-// sqlx.SqlConn (one sql.DB pool, one breaker), every client with its own body,
-// its own transaction-layer fault plan (db.plans[client]) and its own statement
-// faults (keyed by the client's statement tags).  Bodies pause (yield / sleep in
-// virtual time) between statements so that the transactions overlap on the pool.
-// A client with the ending "asynccancel" has its context cancelled by a separate
-// canceller task at a tape-drawn virtual instant, typically while its body sleeps.
+// Pool mode: 2-3 client tasks, each running 1-2 Transact/TransactCtx calls one after
+// another on the same sqlx.SqlConn (one sql.DB pool, one breaker), every transaction with its
+// own body, its own transaction-layer fault plan (db.plans[world id]) and its own statement
+// faults (keyed by the statement tags).  Bodies pause (yield / sleep in virtual time) between
+// statements so that the transactions overlap on the pool.  A transaction with the ending
+// "asynccancel" has its context ended at a tape-drawn virtual instant, typically while its
+// body sleeps: either cancelled by a separate canceller task or by its deadline.
 //
-// Oracle: world.check (the single-client oracle) is applied per client to that
-// client's events of the shared driver log (world.mine): its transaction begins
-// at most once and ends exactly once with the right commit / rollback, and none
-// of its statements runs outside its own transaction - in particular not inside
-// another client's transaction.  Nothing in this mode is enumerated: every
-// choice is sampled from the tape.
+// Oracle: world.check (the single-client oracle) is applied per transaction to its events of
+// the shared driver log (world.mine): it begins at most once and ends exactly once with the
+// right commit / rollback, and none of its statements runs outside its own transaction - in
+// particular not inside another client's transaction.  Nothing in this mode is enumerated:
+// every choice is sampled from the tape.
 //
 // Soundness notes:
 //   - go-zero begins with sql.DB.Begin(), i.e. on context.Background(): database/sql
@@ -34,224 +30,181 @@ import (
 //     transaction owner (simTx.owner), not by calling goroutine, and the driver never
 //     calls an engine hook, so a watcher-goroutine rollback (were go-zero ever to use
 //     BeginTx(ctx)) would be recorded safely and judged by the statement as written.
-//   - BEGIN and connect are attributed to the running task (Sim.CurrentID): database/sql
-//     opens connections and begins on the caller's goroutine as long as MaxOpenConns is
-//     unlimited, which NewSqlConnFromDB leaves untouched.
-//   - at most 3 transactions share the breaker, fewer than the 6 recorded failures it
-//     needs before it may reject, so it stays closed.
-//   - a context cancelled before Transact begins makes the breaker wrapper return the
+//   - BEGIN and connect are attributed to the innermost Transact call in progress on the running
+//     task (Sim.CurrentID): database/sql opens connections and begins on the caller's goroutine
+//     as long as fewer than MaxOpenConns connections are open (unlimited for NewSqlConnFromDB,
+//     64 for the pool that sqlx.NewSqlConn manages; a run opens at most a handful).
+//   - a call may be rejected by the SqlConn's breaker (after several failed transactions):
+//     nothing runs and breaker.ErrServiceUnavailable is returned - within the statement.
+//   - a context that has ended before Transact begins makes the breaker wrapper return the
 //     context's error without beginning: accepted (nothing ran, error non-nil).
 
-func drawPause(t *simrt.Tape, mustSleep bool) pause {
-	if mustSleep {
-		return pause{sleep: time.Duration(t.Range(1, 20)) * time.Millisecond}
-	}
-	switch t.Intn(4) {
-	case 1:
-		return pause{yields: 1 + t.Intn(2)}
-	case 2:
-		return pause{sleep: time.Duration(t.Range(1, 5)) * time.Millisecond}
-	case 3:
-		return pause{sleep: time.Duration(t.Range(10, 50)) * time.Millisecond}
-	}
-	return pause{}
-}
-
 type poolClient struct {
-	w        *world
-	start    pause         // before the Transact call
-	cancelAt time.Duration // endAsyncCancel: virtual instant (from the start of the run) at which the canceller fires
+	start  pause // before the first Transact call
+	worlds []*world
 }
 
 func bodyPool(r *simrt.Run, tier string) {
 	t := r.Tape
 	nC := t.Range(2, 3)
-	db := newSimDB("pool")
-	taskClient := map[int]int{}
-	db.whoFn = func() int {
-		if c, ok := taskClient[r.CurrentID()]; ok {
-			return c
-		}
-		return -1 // the main task (sql.Open / Close)
+	e := newEnv(r, tier, "pool", true)
+	defer e.finish()
+	connKind := []int{ckFromDB, ckFromDB, ckFromDBAccept, ckManaged}[t.Intn(4)]
+	var accModes []int
+	if connKind == ckFromDBAccept {
+		accModes = []int{t.Intn(3)}
+	}
+	if connKind == ckManaged {
+		e.maxSleep = 50 * time.Millisecond // see body: stay far below the pool's connection lifetime
 	}
 
 	var cs []*poolClient
 	for i := 0; i < nC; i++ {
-		tp := tuple{api: t.Intn(nAPI), txf: []int{txfNone, txfNone, txfBegin, txfCommit, txfRollback, txfCommitRollback}[t.Intn(6)], n: t.Intn(4)}
-		es := endingsOf(tp.n)
-		if e := t.Intn(len(es) + 2); e < len(es) {
-			tp.end, tp.pos = ending(es[e][0]), es[e][1]
-		} else {
-			tp.end, tp.pos = endAsyncCancel, -1
-		}
-		w := &world{r: r, tp: tp, db: db, client: i, pool: true}
-		w.kinds = make([]int, tp.n+1)
-		w.useCtx = make([]bool, tp.n+1)
-		for k := 1; k <= tp.n; k++ {
-			w.kinds[k] = t.Intn(nKinds)
-			w.useCtx[k] = t.Bool() || tp.end == endCancel || tp.end == endAsyncCancel
-		}
-		w.errKind, w.panicKind, w.wrap = t.Intn(5), t.Intn(4), t.Bool()
-		failMode := t.Intn(3)
-		connectFails := t.Chance(1, 4)
-		plan := &txFaults{}
-		db.plans[i] = plan
-		switch tp.txf {
-		case txfBegin:
-			if connectFails {
-				plan.failConnect = true // fires only if this client's BEGIN has to open a new connection
+		pc := &poolClient{start: drawPause(t, false, 50*time.Millisecond)}
+		nTx := []int{1, 1, 1, 2}[t.Intn(4)]
+		elapsed := pc.start.sleep
+		for j := 0; j < nTx; j++ {
+			tp := tuple{api: t.Intn(nAPI), txf: []int{txfNone, txfNone, txfBegin, txfCommit, txfRollback, txfCommitRollback}[t.Intn(6)], n: t.Intn(4)}
+			es := endingsOf(tp.n)
+			if k := t.Intn(len(es) + 2); k < len(es) {
+				tp.end, tp.pos = ending(es[k][0]), es[k][1]
 			} else {
-				plan.failBegin = true
+				tp.end, tp.pos = endAsyncCancel, -1
 			}
-		case txfCommit:
-			plan.failCommit = true
-		case txfRollback:
-			plan.failRollback = true
-		case txfCommitRollback:
-			plan.failCommit, plan.failRollback = true, true
-		}
-		if tp.end == endStmtFail || tp.end == endStmtIgnored {
-			k := tp.pos
-			tag := 100*i + k
-			switch kind := w.kinds[k]; {
-			case failMode == 1 && (kind == kQueryRow || kind == kPrepQueryRow):
-				db.emptyStmt[tag] = true
-			case failMode == 2 && (kind == kPrepExec || kind == kPrepQueryRow):
-				db.failPrepare[tag] = true
-			default:
-				db.failStmt[tag] = true
+			w := e.drawWorld(tp, 0, false)
+			total := elapsed + w.sleepTotal()
+			if tp.end == endAsyncCancel {
+				// anywhere from "before the call" to "after the body has finished"
+				w.cancelAt = time.Duration(t.Intn(int((total+5*time.Millisecond)/time.Millisecond)+1)) * time.Millisecond
 			}
-		}
-		pc := &poolClient{w: w, start: drawPause(t, false)}
-		async := tp.end == endAsyncCancel
-		total := pc.start.sleep
-		for k := 0; k <= tp.n; k++ {
-			p := drawPause(t, async)
-			w.pauses = append(w.pauses, p)
-			total += p.sleep
-		}
-		if async {
-			w.ignoreCancel = t.Bool()
-			// anywhere from "before the call" to "after the body has finished"
-			pc.cancelAt = time.Duration(t.Intn(int((total+5*time.Millisecond)/time.Millisecond)+1)) * time.Millisecond
+			elapsed = total
+			pc.worlds = append(pc.worlds, w)
 		}
 		cs = append(cs, pc)
 	}
 
-	dsn := register(db)
-	defer unregister(dsn)
-	sqlDB, err := sql.Open(driverName, dsn)
-	if err != nil {
-		r.EngineError("sql.Open: %v", err)
+	cleanup, ok := e.open(connKind, accModes)
+	if !ok {
 		return
 	}
-	defer sqlDB.Close()
-	conn := sqlx.NewSqlConnFromDB(sqlDB)
+	defer cleanup()
 
 	if r.Tracing() {
-		for _, pc := range cs {
-			w := pc.w
-			var ks []string
-			for k := 1; k <= w.tp.n; k++ {
-				ks = append(ks, fmt.Sprintf("%s(ctx=%v)", kindNames[w.kinds[k]], w.useCtx[k]))
+		logf(r, "pool mode: conn=%s acceptable-modes=%v", connNames[connKind], accModes)
+		for i, pc := range cs {
+			logf(r, "client %d start=%+v", i, pc.start)
+			for _, w := range pc.worlds {
+				logf(r, "  plan %s", w.describe())
+				if w.nested != nil {
+					logf(r, "  plan %s", w.nested.describe())
+				}
 			}
-			r.Logf("pool client c%d: api=%s tuple=%s statements=%v start=%+v pauses=%+v cancelAt=%v ignoreCancel=%v errKind=%d panicKind=%d wrap=%v plan=%+v",
-				w.client, apiNames[w.tp.api], w.tp.name(), ks, pc.start, w.pauses, pc.cancelAt, w.ignoreCancel, w.errKind, w.panicKind, w.wrap, *db.plans[w.client])
 		}
 	}
 
 	var tasks []*simrt.Task
-	for _, pc := range cs {
+	for i, pc := range cs {
 		pc := pc
-		w := pc.w
-		w.bctx, w.cancel = context.WithCancel(context.Background())
-		defer w.cancel()
-		r.Ev("pool-client", int64(w.client), int64(w.tp.api), int64(w.tp.txf), int64(w.tp.n), int64(w.tp.end), int64(w.tp.pos))
-		task := r.Go(fmt.Sprintf("client%d", w.client), func() {
-			for i := 0; i < pc.start.yields; i++ {
+		for _, w := range pc.worlds {
+			w := w
+			// the contexts exist from the start of the run (a canceller may fire before the call)
+			w.makeCtx(context.Background())
+			r.Ev("pool-client", int64(i), int64(w.id), int64(w.tp.api), int64(w.tp.txf), int64(w.tp.n), int64(w.tp.end), int64(w.tp.pos))
+			if w.tp.end == endAsyncCancel && w.ctxKind != cxAsyncDeadline {
+				tasks = append(tasks, r.Go(fmt.Sprintf("canceller%d", w.id), func() {
+					if w.cancelAt > 0 {
+						r.Sleep(w.cancelAt)
+					}
+					switch {
+					case w.bodyRuns == 0:
+						r.Probe("pool-cancel-before-body")
+					case w.outcome == "running":
+						r.Probe("pool-cancel-while-body-paused")
+					default:
+						r.Probe("pool-cancel-after-body")
+					}
+					w.cancel()
+				}))
+			}
+		}
+		tasks = append(tasks, r.Go(fmt.Sprintf("client%d", i), func() {
+			for k := 0; k < pc.start.yields; k++ {
 				r.Yield()
 			}
 			if pc.start.sleep > 0 {
 				r.Sleep(pc.start.sleep)
 			}
-			w.transact(conn)
-		})
-		taskClient[task.ID] = w.client
-		tasks = append(tasks, task)
-		if w.tp.end == endAsyncCancel {
-			tasks = append(tasks, r.Go(fmt.Sprintf("canceller%d", w.client), func() {
-				if pc.cancelAt > 0 {
-					r.Sleep(pc.cancelAt)
-				}
-				switch {
-				case w.bodyRuns == 0:
-					r.Probe("pool-cancel-before-body")
-				case w.outcome == "running":
-					r.Probe("pool-cancel-while-body-paused")
-				default:
-					r.Probe("pool-cancel-after-body")
-				}
-				w.cancelFired = true
-				w.cancel()
-			}))
-		}
+			for _, w := range pc.worlds {
+				w.transact(context.Background())
+			}
+		}))
 	}
 	if !r.JoinTimeout(time.Hour, tasks...) {
-		r.Fail("stuck", "pool mode: transactions did not all return within an hour of virtual time: %v", r.AliveTasks())
+		failf(r, "stuck", "pool mode: transactions did not all return within an hour of virtual time: %v", r.AliveTasks())
 		return
 	}
 
-	log := db.snapshot()
-	for _, e := range log {
+	log := e.db.snapshot()
+	for _, ev := range log {
 		flag := int64(0)
-		if e.err != nil {
+		if ev.err != nil {
 			flag = 1
 		}
-		r.Ev(e.op, int64(e.client), int64(e.tag), flag)
+		r.Ev(ev.op, int64(ev.client), int64(ev.tag), flag)
 	}
 	if r.Tracing() {
-		r.Logf("driver log: %s", logString(log))
-		for _, pc := range cs {
-			w := pc.w
-			r.Logf("c%d: body runs=%d outcome=%s bodyErr=%v; Transact returned %v (escaped panic: %v) cancelledAtReturn=%v", w.client, w.bodyRuns, w.outcome, w.bodyErr, w.ret, w.escaped, w.cancelledAtReturn)
+		logf(r, "driver log: %s", logString(log))
+		for _, w := range e.worlds {
+			if w.called {
+				logf(r, "c%d: body runs=%d outcome=%s bodyErr=%v; Transact returned %v (escaped panic: %v) ctx at return: %v", w.id, w.bodyRuns, w.outcome, w.bodyErr, w.ret, w.escaped, w.ctxErrAtReturn)
+			}
 		}
 	}
 
-	// ---- oracle, per client
-	for _, pc := range cs {
-		w := pc.w
-		w.check(log, w.ret, w.didEscape, w.escaped, 0)
+	// ---- oracle, per transaction
+	for _, w := range e.worlds {
+		if !w.called {
+			continue
+		}
+		w.check(log)
 		if r.Failed() {
 			return
 		}
 	}
 	// ended at the database/sql level too: every connection went back to the pool
-	if inUse := sqlDB.Stats().InUse; inUse != 0 {
-		r.Fail("tx-left-open", "pool mode: %d connection(s) still checked out after every Transact returned. driver log: %s", inUse, logString(log))
-		return
+	raw := e.sqlDB
+	if raw == nil {
+		raw, _ = e.conn.RawDB()
+	}
+	if raw != nil {
+		if inUse := raw.Stats().InUse; inUse != 0 {
+			failf(r, "tx-left-open", "pool mode: %d connection(s) still checked out after every Transact returned. driver log: %s", inUse, logString(log))
+			return
+		}
 	}
 
 	// ---- coverage bookkeeping
 	r.Probe("oracle")
 	r.Probe("nontrivial")
 	r.Probe("pool-mode")
+	r.Probe("pool-conn-" + connNames[connKind])
 	open, overlapped, reused := map[int]bool{}, false, false
 	connUsed := map[int]bool{}
-	for _, e := range log {
-		switch e.op {
+	for _, ev := range log {
+		switch ev.op {
 		case opBegin:
-			if e.err == nil {
+			if ev.err == nil {
 				if len(open) > 0 {
 					overlapped = true
 				}
-				open[e.tx] = true
-				if connUsed[e.conn] {
+				open[ev.tx] = true
+				if connUsed[ev.conn] {
 					reused = true
 				}
-				connUsed[e.conn] = true
+				connUsed[ev.conn] = true
 			}
 		case opCommit, opRollback:
-			delete(open, e.tx)
+			delete(open, ev.tx)
 		}
 	}
 	if overlapped {
@@ -262,22 +215,31 @@ func bodyPool(r *simrt.Run, tier string) {
 	}
 	var descr []string
 	for _, pc := range cs {
-		w := pc.w
+		if len(pc.worlds) > 1 {
+			r.Probe("pool-client-with-two-transactions")
+		}
+	}
+	for _, w := range e.worlds {
+		if !w.called {
+			continue
+		}
 		r.Probe("pool-api-" + apiNames[w.tp.api])
 		r.Probe("pool-ending-" + endingNames[w.tp.end])
-		for _, what := range []string{"begin", "connect", "commit", "rollback", "stmt", "prepare", "empty"} {
-			if db.fired(w.client, what) > 0 {
-				r.Probe("pool-fault-fired-" + what)
+		if w.tp.end == endAsyncCancel && w.ctxKind == cxAsyncDeadline {
+			switch {
+			case w.ctxDoneAtCall:
+				r.Probe("pool-deadline-before-call")
+			case w.ctxErrAtReturn != nil:
+				r.Probe("pool-deadline-during-call")
+			default:
+				r.Probe("pool-deadline-after-call")
 			}
 		}
-		if w.unexpected > 0 {
-			r.Probe("unplanned-statement-error")
+		if w.tp.end == endAsyncCancel && w.refusedAfterDone > 0 {
+			r.Probe("pool-stmt-refused-after-async-cancel")
 		}
-		retStr := "<nil>"
-		if w.ret != nil {
-			retStr = w.ret.Error()
-		}
-		descr = append(descr, fmt.Sprintf("c%d %s %s -> body %s, returned %s", w.client, apiNames[w.tp.api], w.tp.name(), w.outcome, retStr))
+		descr = append(descr, w.summary())
 	}
-	r.Sample(map[string]any{"mode": "pool", "clients": nC, "transactions": strings.Join(descr, " | "), "driver_log": logString(log)})
+	e.coverage()
+	r.Sample(map[string]any{"mode": "pool", "clients": nC, "conn": connNames[connKind], "transactions": strings.Join(descr, " | "), "driver_log": logString(log)})
 }
